@@ -1,0 +1,354 @@
+//go:build verif
+
+package engine
+
+// Facade used by the verification harness (/verif). Nothing here is compiled without the
+// `verif` build tag. It opens a stand-alone ts-store shard on a directory, with an explicit
+// number of WAL partitions, and exposes: write rows, force flush, level / full compaction,
+// out-of-order merge, drop measurement, a logical dump of every row through the normal cursor
+// path, and the file layout.
+
+import (
+	"context"
+	"fmt"
+	"math"
+	"path/filepath"
+	"runtime/debug"
+	"sort"
+	"sync"
+	"time"
+
+	"github.com/influxdata/influxdb/pkg/limiter"
+	"github.com/openGemini/openGemini/engine/executor"
+	"github.com/openGemini/openGemini/engine/immutable"
+	"github.com/openGemini/openGemini/engine/index/tsi"
+	"github.com/openGemini/openGemini/lib/config"
+	"github.com/openGemini/openGemini/lib/cpu"
+	"github.com/openGemini/openGemini/lib/index"
+	"github.com/openGemini/openGemini/lib/record"
+	"github.com/openGemini/openGemini/lib/resourceallocator"
+	"github.com/openGemini/openGemini/lib/util"
+	"github.com/openGemini/openGemini/lib/util/lifted/influx/influxql"
+	"github.com/openGemini/openGemini/lib/util/lifted/influx/meta"
+	"github.com/openGemini/openGemini/lib/util/lifted/influx/query"
+	"github.com/openGemini/openGemini/lib/util/lifted/vm/protoparser/influx"
+)
+
+func verifEngineOptions() EngineOptions {
+	o := NewEngineOptions()
+	o.WriteColdDuration = time.Second * 5000
+	o.ShardMutableSizeLimit = 30 * 1024 * 1024
+	o.NodeMutableSizeLimit = 1e9
+	o.MaxWriteHangTime = time.Second
+	o.MemDataReadEnabled = true
+	o.WalSyncInterval = 100 * time.Millisecond
+	o.WalEnabled = true
+	o.WalReplayParallel = false
+	o.WalReplayAsync = false
+	o.DownSampleWriteDrop = true
+	return o
+}
+
+var verifLimitersOnce sync.Once
+
+// VerifShard is a shard opened by the harness.
+type VerifShard struct {
+	sh  *shard
+	ib  *tsi.IndexBuilder
+	Dir string
+}
+
+// VerifOpenShard opens (creating or recovering) a ts-store shard rooted at dir. walParts > 0
+// forces the number of WAL partitions (there is no configuration option for it).
+func VerifOpenShard(dir string, walParts int) (v *VerifShard, err error) {
+	defer func() {
+		if r := recover(); r != nil {
+			err = fmt.Errorf("panic while opening shard: %v", r)
+		}
+	}()
+	const db, rp = "db0", "rp0"
+	dataPath := filepath.Join(dir, "data")
+	walPath := filepath.Join(dir, "wal")
+	lockPath := filepath.Join(dataPath, "LOCK")
+	indexPath := filepath.Join(dir, db, "index", "data")
+	ident := &meta.IndexIdentifier{OwnerDb: db, OwnerPt: 1, Policy: rp}
+	ident.Index = &meta.IndexDescriptor{IndexID: 1, IndexGroupID: 2, TimeRange: meta.TimeRangeInfo{}}
+	ltime := uint64(time.Now().Unix())
+	opts := new(tsi.Options).
+		Ident(ident).
+		Path(indexPath).
+		IndexType(index.MergeSet).
+		EngineType(config.TSSTORE).
+		StartTime(time.Now()).
+		EndTime(time.Now().Add(time.Hour)).
+		Duration(time.Hour).
+		LogicalClock(1).
+		SequenceId(&ltime).
+		Lock(&lockPath)
+	ib := tsi.NewIndexBuilder(opts)
+	primary, err := tsi.NewIndex(opts)
+	if err != nil {
+		return nil, err
+	}
+	primary.SetIndexBuilder(ib)
+	rel, err := tsi.NewIndexRelation(opts, primary, ib)
+	if err != nil {
+		return nil, err
+	}
+	ib.Relations[uint32(index.MergeSet)] = rel
+	if err = ib.Open(); err != nil {
+		return nil, err
+	}
+	dur := &meta.DurationDescriptor{Tier: util.Hot, TierDuration: time.Hour}
+	tr := &meta.TimeRangeInfo{StartTime: time.Unix(0, 0).UTC(), EndTime: time.Date(2099, 1, 1, 0, 0, 0, 0, time.UTC)}
+	sid := &meta.ShardIdentifier{ShardID: 1, ShardGroupID: 1, OwnerDb: db, OwnerPt: 1, Policy: rp}
+	verifLimitersOnce.Do(func() {
+		if openShardsLimit == nil {
+			openShardsLimit = limiter.NewFixed(cpu.GetCpuNum())
+		}
+		if replayWalLimit == nil {
+			replayWalLimit = limiter.NewFixed(cpu.GetCpuNum())
+		}
+		_ = resourceallocator.InitResAllocator(math.MaxInt64, 1, 1, resourceallocator.GradientDesc, resourceallocator.ChunkReaderRes, 0, 0)
+		_ = resourceallocator.InitResAllocator(math.MaxInt64, 1, 1, resourceallocator.GradientDesc, resourceallocator.ShardsParallelismRes, 0, 0)
+		_ = resourceallocator.InitResAllocator(math.MaxInt64, 1, 1, resourceallocator.GradientDesc, resourceallocator.SeriesParallelismRes, 0, 0)
+	})
+	o := verifEngineOptions()
+	sh := NewShard(dataPath, walPath, &lockPath, sid, dur, tr, o, config.TSSTORE, nil)
+	if walParts > 0 {
+		sh.wal = NewWAL(walPath, &lockPath, sid.ShardID, o.WalSyncInterval, o.WalEnabled, o.WalReplayParallel, walParts, o.WalReplayBatchSize)
+	}
+	sh.indexBuilder = ib
+	if err = sh.OpenAndEnable(nil); err != nil {
+		_ = sh.Close()
+		_ = ib.Close()
+		return nil, err
+	}
+	return &VerifShard{sh: sh, ib: ib, Dir: dir}, nil
+}
+
+// Close closes the shard and its index (a clean shutdown).
+func (v *VerifShard) Close() error {
+	e1 := v.ib.Close()
+	e2 := v.sh.Close()
+	if e1 != nil {
+		return e1
+	}
+	return e2
+}
+
+// DisableBackground stops automatic compaction and merge so that the harness decides when
+// they happen.
+func (v *VerifShard) DisableBackground() { v.sh.immTables.DisableCompAndMerge() }
+
+// EnableBackground re-enables automatic compaction and merge.
+func (v *VerifShard) EnableBackground() { v.sh.immTables.EnableCompAndMerge() }
+
+// Write writes one batch the way the store's write path does (memtable + WAL), returning
+// once the write is acknowledged.
+func (v *VerifShard) Write(rows []influx.Row) error {
+	for i := range rows {
+		sort.Sort(&rows[i].Tags)
+		sort.Sort(&rows[i].Fields)
+		rows[i].UnmarshalIndexKeys(nil)
+		rows[i].UnmarshalShardKeyByTag(nil)
+	}
+	buf, err := influx.FastMarshalMultiRows(nil, rows)
+	if err != nil {
+		return err
+	}
+	return v.sh.WriteRows(rows, buf)
+}
+
+// FlushIndex makes series created by earlier writes visible to index searches (the index
+// buffers new items for up to a second before they can be searched).
+func (v *VerifShard) FlushIndex() { v.ib.Flush() }
+
+// Flush forces a flush of the active memtable and waits until it is complete.
+func (v *VerifShard) Flush() {
+	v.sh.ForceFlush()
+	v.sh.waitSnapshot()
+}
+
+// LevelCompact plans and runs level compaction for one level and waits for it.
+func (v *VerifShard) LevelCompact(level uint16) error {
+	v.sh.immTables.CompactionEnable()
+	err := v.sh.immTables.LevelCompact(level, v.sh.ident.ShardID)
+	v.wait()
+	return err
+}
+
+// FullCompact runs a full compaction and waits for it.
+func (v *VerifShard) FullCompact() error {
+	v.sh.immTables.CompactionEnable()
+	err := v.sh.immTables.FullCompact(v.sh.ident.ShardID)
+	v.wait()
+	return err
+}
+
+// MergeOutOfOrder merges out-of-order files into ordered ones and waits for it.
+func (v *VerifShard) MergeOutOfOrder(full, force bool) error {
+	v.sh.immTables.MergeEnable()
+	err := v.sh.immTables.MergeOutOfOrder(v.sh.ident.ShardID, full, force)
+	v.wait()
+	return err
+}
+
+func (v *VerifShard) wait() {
+	if w, ok := v.sh.immTables.(interface{ Wait() }); ok {
+		w.Wait()
+	}
+}
+
+// DropMeasurement drops one measurement from the shard.
+func (v *VerifShard) DropMeasurement(name string) error {
+	return v.sh.DropMeasurement(context.Background(), name)
+}
+
+// VerifFile describes one data file of a measurement.
+type VerifFile struct {
+	Name     string
+	Order    bool
+	Level    uint16
+	Seq      uint64
+	MinTime  int64
+	MaxTime  int64
+	FileSize int64
+}
+
+// Files lists the ordered and out-of-order files of a measurement.
+func (v *VerifShard) Files(mst string) []VerifFile {
+	var out []VerifFile
+	for _, order := range []bool{true, false} {
+		fs, ok := v.sh.immTables.GetTSSPFiles(mst, order)
+		if !ok || fs == nil {
+			continue
+		}
+		for _, f := range fs.Files() {
+			lv, seq := f.LevelAndSequence()
+			mn, mx, _ := f.MinMaxTime()
+			out = append(out, VerifFile{Name: filepath.Base(f.Path()), Order: order, Level: lv, Seq: seq, MinTime: mn, MaxTime: mx, FileSize: f.FileSize()})
+		}
+		immutable.UnrefFilesReader(fs.Files()...)
+		immutable.UnrefFiles(fs.Files()...)
+	}
+	return out
+}
+
+// VerifField names a field to read and its type.
+type VerifField struct {
+	Name string
+	Type influxql.DataType
+}
+
+// VerifRow is one row as returned by the cursor path: series key, timestamp and one value
+// per requested field (nil = null).
+type VerifRow struct {
+	Series string
+	Time   int64
+	Vals   []interface{}
+}
+
+// Dump reads every row of a measurement in [tmin,tmax] through CreateCursor, ascending or
+// descending, for the given fields. Rows are returned in the order the cursors produced
+// them, cursor after cursor.
+func (v *VerifShard) Dump(mst string, fields []VerifField, tmin, tmax int64, asc bool) (rows []VerifRow, err error) {
+	defer func() {
+		if r := recover(); r != nil {
+			err = fmt.Errorf("panic while reading: %v\n%s", r, debug.Stack())
+		}
+	}()
+	var aux []influxql.VarRef
+	var qf influxql.Fields
+	var names []string
+	for _, f := range fields {
+		aux = append(aux, influxql.VarRef{Val: f.Name, Type: f.Type})
+	}
+	for i := range aux {
+		qf = append(qf, &influxql.Field{Expr: &aux[i]})
+		names = append(names, aux[i].Val)
+	}
+	opt := &query.ProcessorOptions{
+		Name:        mst,
+		Ascending:   asc,
+		FieldAux:    aux,
+		MaxParallel: 1,
+		ChunkSize:   1024,
+		StartTime:   tmin,
+		EndTime:     tmax,
+	}
+	schema := executor.NewQuerySchema(qf, names, opt, nil)
+	info, err := v.sh.CreateCursor(context.Background(), schema)
+	if err != nil {
+		return nil, err
+	}
+	if info == nil {
+		return nil, nil
+	}
+	defer info.Unref()
+	// Storage-level read: the series cursors below the tag-set level are what merges the
+	// memtable, the table being flushed, out-of-order and ordered files for one series. They are
+	// read directly, series by series (no query plan is sunk into the cursors here; the layers
+	// above them only interleave series).
+	for _, cur := range info.GetCursors() {
+		gc, ok := cur.(*groupCursor)
+		if !ok {
+			_ = cur.Close()
+			return nil, fmt.Errorf("unexpected cursor type %T", cur)
+		}
+		for i := range gc.tagSetCursors {
+			ts, ok := gc.tagSetCursors[i].(*tagSetCursor)
+			if !ok {
+				return nil, fmt.Errorf("unexpected tag-set cursor type %T", gc.tagSetCursors[i])
+			}
+			for _, kc := range ts.keyCursors {
+				for {
+					rec, sinfo, e := kc.Next()
+					if e != nil {
+						_ = cur.Close()
+						return nil, e
+					}
+					if rec == nil || rec.RowNums() == 0 {
+						break
+					}
+					rows = appendVerifRows(rows, rec, string(sinfo.GetSeriesKey()), fields)
+				}
+			}
+		}
+		_ = cur.Close()
+	}
+	return rows, nil
+}
+
+func appendVerifRows(rows []VerifRow, rec *record.Record, key string, fields []VerifField) []VerifRow {
+	times := rec.Times()
+	for r := 0; r < rec.RowNums(); r++ {
+		row := VerifRow{Series: key, Time: times[r], Vals: make([]interface{}, len(fields))}
+		for i, f := range fields {
+			ci := rec.Schema.FieldIndex(f.Name)
+			if ci < 0 {
+				continue
+			}
+			cv := rec.Column(ci)
+			if cv.IsNil(r) {
+				continue
+			}
+			switch rec.Schema[ci].Type {
+			case influx.Field_Type_Int:
+				x, _ := cv.IntegerValue(r)
+				row.Vals[i] = x
+			case influx.Field_Type_Float:
+				x, _ := cv.FloatValue(r)
+				row.Vals[i] = x
+			case influx.Field_Type_Boolean:
+				x, _ := cv.BooleanValue(r)
+				row.Vals[i] = x
+			case influx.Field_Type_String, influx.Field_Type_Tag:
+				x, _ := cv.StringValueSafe(r)
+				row.Vals[i] = x
+			}
+		}
+		rows = append(rows, row)
+	}
+	return rows
+}
